@@ -70,7 +70,7 @@ func LoadSigHashVectors(name string) ([]SigHashVector, error) {
 
 // SigHashCalibration is the result of CalibrateSigHash.
 type SigHashCalibration struct {
-	BIP143, Legacy   []SigHashVector
+	BIP143, Legacy     []SigHashVector
 	OKBIP143, OKLegacy int
 }
 
